@@ -1,0 +1,8 @@
+//go:build verif && race
+
+package iavl
+
+import "runtime"
+
+func verifRaceDisable() { runtime.RaceDisable() }
+func verifRaceEnable()  { runtime.RaceEnable() }
